@@ -609,7 +609,7 @@ def select__array_fold_left_right_functions(self: XPathFunction, context: ta.Con
 
     if isinstance(result, list):
         yield from result
-    else:
+    elif result is not None:
         yield result
 
 
